@@ -270,33 +270,39 @@ def r3_once(ctx):
             isinstance(enclosing(roadm_app[0], ast.If), ast.If) and 'Roadm' in ast.unparse(enclosing(roadm_app[0], ast.If).test)
         ctx.check('R3.once', f'{s} one add/drop OSNR per ROADM crossing', ok, key(f, 'roadm-append'),
                   'the add/drop OSNR of a crossed ROADM is not appended exactly once per crossing')
-        ctx.check('R3.once', f'{s} transmitter OSNR appended once', len(tx_app) == 1, key(f, 'tx-append'),
+        # handed over in the same call instead of being appended first:  update_snr(*list, <tx osnr>)
+        extra = [a for a in us[0].args[1:] if not isinstance(a, ast.Starred)]
+        direct = not tx_app and len(extra) == 1 and len(us[0].args) == 2 and ast.unparse(extra[0]).endswith('tx_osnr') or \
+            (not tx_app and len(extra) == 1 and len(us[0].args) == 2 and fname == 'propagate_and_optimize_mode' and "['tx_osnr']" in ast.unparse(extra[0]))
+        ctx.check('R3.once', f'{s} transmitter OSNR appended once', len(tx_app) == 1 or bool(direct), key(f, 'tx-append'),
                   f'the transmitter OSNR is appended {len(tx_app)} times to the list given to update_snr')
-        if len(tx_app) != 1:
-            continue
-        an, un = g.node_of(stmt_of(f, tx_app[0])), g.node_of(stmt_of(f, us[0]))
-        # update_snr(*list) comes after the append on every path
-        p = g.path_avoiding(g.entry, un, lambda n: n.id == an.id, skip_labels=('exc',))
-        ctx.check('R3.once', f'{s} receiver update after the append', p is None, key(f, 'update-after-append'),
-                  'the receiver can be updated without the transmitter OSNR', fmt_path(f, p) if p else '')
-        loop = enclosing(tx_app[0], ast.For)
-        if loop is not None and fname == 'propagate_and_optimize_mode':
-            head = g.node_of(loop)
-            rids = {g.node_of(stmt_of(f, r)).id for r in rem if g.node_of(stmt_of(f, r)) is not None}
-            p = g.path_avoiding(an, head, lambda n: n.id in rids, skip_labels=('exc',))
-            ctx.check('R3.once', f'{s} appended OSNR removed before the next mode', p is None, key(f, 'append-del'),
-                      'the transmitter OSNR appended for one mode is still in the list when the next mode is evaluated '
-                      '(it would be counted twice)', fmt_path(f, p) if p else '')
-            # and removed only after it was used
-            for r in rem:
-                rn = g.node_of(stmt_of(f, r))
-                q = g.path_avoiding(an, rn, lambda n: n.id == un.id, skip_labels=('exc',))
-                ctx.check('R3.once', f'{site(f, r)} removal after use', q is None, key(f, 'del-after-use'),
-                          'the transmitter OSNR is removed before the receiver update uses it', fmt_path(f, q) if q else '')
-        elif fname == 'propagate':
-            ctx.check('R3.once', f'{s} append outside the element loop', loop is None, key(f, 'tx-append-in-loop'),
-                      'the transmitter OSNR is appended inside a loop')
-        # calc_penalties follows update_snr at both ends
+        if len(tx_app) == 1:
+            an, un = g.node_of(stmt_of(f, tx_app[0])), g.node_of(stmt_of(f, us[0]))
+            # update_snr(*list) comes after the append on every path
+            p = g.path_avoiding(g.entry, un, lambda n: n.id == an.id, skip_labels=('exc',))
+            ctx.check('R3.once', f'{s} receiver update after the append', p is None, key(f, 'update-after-append'),
+                      'the receiver can be updated without the transmitter OSNR', fmt_path(f, p) if p else '')
+            loop = enclosing(tx_app[0], ast.For)
+            if loop is not None and fname == 'propagate_and_optimize_mode':
+                head = g.node_of(loop)
+                rids = {g.node_of(stmt_of(f, r)).id for r in rem if g.node_of(stmt_of(f, r)) is not None}
+                p = g.path_avoiding(an, head, lambda n: n.id in rids, skip_labels=('exc',))
+                ctx.check('R3.once', f'{s} appended OSNR removed before the next mode', p is None, key(f, 'append-del'),
+                          'the transmitter OSNR appended for one mode is still in the list when the next mode is evaluated '
+                          '(it would be counted twice)', fmt_path(f, p) if p else '')
+                # and removed only after it was used
+                for r in rem:
+                    rn = g.node_of(stmt_of(f, r))
+                    q = g.path_avoiding(an, rn, lambda n: n.id == un.id, skip_labels=('exc',))
+                    ctx.check('R3.once', f'{site(f, r)} removal after use', q is None, key(f, 'del-after-use'),
+                              'the transmitter OSNR is removed before the receiver update uses it', fmt_path(f, q) if q else '')
+            elif fname == 'propagate':
+                ctx.check('R3.once', f'{s} append outside the element loop', loop is None, key(f, 'tx-append-in-loop'),
+                          'the transmitter OSNR is appended inside a loop')
+            # calc_penalties follows update_snr at both ends
+        elif direct:
+            ctx.ok('R3.once', f'{s} receiver update after the append', 'the transmitter OSNR is an argument of the update itself')
+            ctx.ok('R3.once', f'{s} append outside the element loop', 'nothing is appended: the list holds the ROADM contributions only')
         cps = calls_to(f, {'calc_penalties'})
         ups = calls_to(f, {'update_snr'})
         ends_u = sorted(ast.unparse(c.func.value) for c in ups)
